@@ -11,6 +11,7 @@ theorem display_eq (fmt : F → String) (s : Minimum F) :
 
 theorem default_eq : (default_ : Option (Minimum F)) = some (fresh 14) := by
   unfold default_
+  try simp only [gen_helper]
   rw [new_eq]
   simp [unwrap, isizeMax]
 
